@@ -108,9 +108,12 @@ fn write_fits<C: Combo>(path: &Path, m: &RangeMOC<C::T, C::Q>) {
 
 fn shallow_moc<C: Combo>(rng: &mut Rng) -> (u8, Vec<Range<u64>>) {
   let md = <C::Q as MocQty<C::T>>::MAX_DEPTH;
-  let d = match rng.below(6) {
+  let d = match rng.below(8) {
     0 => md,
     1 => 0,
+    // depths on both sides of the automatic narrowing thresholds of the FITS writer (5/6 and 13/14 for space)
+    2 => (5 + rng.below(3) as u8).min(md),
+    3 => (12 + rng.below(4) as u8).min(md),
     _ => rng.below(4.min(md as u64) + 1) as u8,
   };
   let l = match rng.below(8) {
@@ -194,10 +197,16 @@ fn single<C: Combo>(sink: &mut Sink, rng: &mut Rng, n: usize, dir: &Path) {
       inputs.push(("json".to_string(), pj));
     }
     for (ifmt, ipath) in &inputs {
-      for ofmt in ["fits", "ascii", "json"] {
+      for ofmt in ["fits", "fits", "ascii", "json"] {
         let outp = dir.join(format!("conv.{}", ofmt));
         let _ = fs::remove_file(&outp);
-        let o = moc(&["convert", "-f", ifmt, "-t", tflag, ipath.to_str().unwrap(), ofmt, outp.to_str().unwrap()], None);
+        // FITS output options: plain, --force-v1 (NUNIQ for space), --force-u64, both
+        let flags: Vec<&str> = if ofmt == "fits" { match rng.below(4) { 0 => vec![], 1 => vec!["-p"], 2 => vec!["-f"], _ => vec!["-p", "-f"] } } else { vec![] };
+        let mut args: Vec<&str> = vec!["convert", "-f", ifmt, "-t", tflag, ipath.to_str().unwrap(), ofmt];
+        args.extend(flags.iter());
+        args.push(outp.to_str().unwrap());
+        sink.count(&format!("convert-flags:{}", if flags.is_empty() { "none".to_string() } else { flags.join("") }));
+        let o = moc(&args, None);
         let ans = if o.code == 0 { decode(&outp, ofmt, q) } else { format!("exit {} {}", o.code, o.err.lines().next().unwrap_or("")) };
         if o.code == 101 {
           sink.impl_failures.push(format!("cli-panic: moc convert {}->{} on a valid {} u{} MOC: {}", ifmt, ofmt, q, C::W, o.err.lines().next().unwrap_or("")));
@@ -313,8 +322,7 @@ pub fn run(sink: &mut Sink, rng: &mut Rng, thorough: bool, dir: &Path) {
 
   // moc from pos: the cell of every position is computed with cdshealpix (oracle for the hash only)
   for _ in 0..(if thorough { 100 } else { 20 }) {
-    let deep = rng.chance(1, 3);
-    let depth = rng.below(if deep { 30 } else { 8 }) as u8;
+    let depth = match rng.below(3) { 0 => rng.below(30) as u8, 1 => 6 + rng.below(8) as u8, _ => rng.below(8) as u8 };
     let k = rng.below(6) as usize;
     let mut cells: Vec<u64> = Vec::new();
     let mut input = String::new();
@@ -326,7 +334,12 @@ pub fn run(sink: &mut Sink, rng: &mut Rng, thorough: bool, dir: &Path) {
     }
     let outp = dir.join("from_p.fits");
     let _ = fs::remove_file(&outp);
-    let o = moc(&["from", "pos", &depth.to_string(), "-", "fits", outp.to_str().unwrap()], Some(&input));
+    let pflags: Vec<&str> = match rng.below(4) { 0 => vec![], 1 => vec!["-p"], 2 => vec!["-f"], _ => vec!["-p", "-f"] };
+    let ds = depth.to_string();
+    let mut pargs: Vec<&str> = vec!["from", "pos", &ds, "-", "fits"];
+    pargs.extend(pflags.iter());
+    pargs.push(outp.to_str().unwrap());
+    let o = moc(&pargs, Some(&input));
     let ans = if o.code == 0 { decode(&outp, "fits", "hpx") } else { format!("exit {} {}", o.code, o.err.lines().next().unwrap_or("")) };
     if o.code == 101 {
       sink.impl_failures.push(format!("cli-panic: moc from pos depth {}: {}", depth, o.err.lines().next().unwrap_or("")));
